@@ -5,11 +5,13 @@ rest; destinations consume a funding front to back; `kept` is handed back).  Thi
 "what the source text says" for C08, and the object C01/C03/C09 are proved about.  DESIGN.md appendix A. -/
 namespace Num
 
-/-- tracked balances of the execution (`Machine.Balances`): `none` = no entry -/
-abbrev Bal := Acct → Asset → Option Int
+/-- tracked balances of the execution (`Machine.Balances`): `none` = no entry.  (A structure rather than a bare
+function so that compiled code builds each new table once instead of re-evaluating partial applications.) -/
+structure Bal where
+  get : Acct → Asset → Option Int
 
 def Bal.upd (b : Bal) (a : Acct) (s : Asset) (v : Int) : Bal :=
-  fun a' s' => if a' = a ∧ s' = s then some v else b a' s'
+  ⟨fun a' s' => if a' = a ∧ s' = s then some v else b.get a' s'⟩
 
 structure Fund where
   asset : Asset
@@ -90,12 +92,12 @@ def leftAsset (env : VEnv) (e : Expr) : Except Err Asset :=
 /-! ### balance primitives (`withdrawAll`, `withdrawAlways`, `repay`, `credit` of `vm/machine.go`) -/
 
 def withdrawAll (b : Bal) (a : Acct) (s : Asset) (o : Int) : Except Err (Part × Bal) :=
-  match b a s with
+  match b.get a s with
   | none => .error .invalidScript
   | some t => if t + o > 0 then .ok (⟨a, t + o⟩, b.upd a s (-o)) else .ok (⟨a, 0⟩, b)
 
 def withdrawAlways (b : Bal) (a : Acct) (s : Asset) (n : Int) : Except Err (Part × Bal) :=
-  match b a s with
+  match b.get a s with
   | none => .error .invalidScript
   | some t => .ok (⟨a, n⟩, b.upd a s (t - n))
 
@@ -103,11 +105,11 @@ def repay (b : Bal) (s : Asset) : Parts → Bal
   | [] => b
   | p :: ps =>
     if p.acct = "world" then repay b s ps
-    else repay (b.upd p.acct s ((b p.acct s).getD 0 + p.amt)) s ps
+    else repay (b.upd p.acct s ((b.get p.acct s).getD 0 + p.amt)) s ps
 
 def credit (b : Bal) (d : Acct) (s : Asset) (f : Parts) : Bal :=
   if d = "world" then b else
-  match b d s with
+  match b.get d s with
   | none => b
   | some t => b.upd d s (t + total f)
 
@@ -378,7 +380,7 @@ def evalStmt (env : VEnv) : Stmt → Full → Except Err Full
       | .error er => .error er
       | .ok a =>
         if mn < 0 then .error .negativeBalance else
-        match F.st.bal a ma with
+        match F.st.bal.get a ma with
         | none => .error .invalidScript
         | some t => .ok { F with st := { F.st with bal := F.st.bal.upd a ma (t - mn) } }
   | .saveAll ae acc, F =>
@@ -388,7 +390,7 @@ def evalStmt (env : VEnv) : Stmt → Full → Except Err Full
       match evalAcct env acc with
       | .error er => .error er
       | .ok a =>
-        match F.st.bal a s with
+        match F.st.bal.get a s with
         | none => .error .invalidScript
         | some t => .ok { F with st := { F.st with bal := if t > 0 then F.st.bal.upd a s 0 else F.st.bal } }
   | .setTxMeta k v, F =>
@@ -507,7 +509,7 @@ def neededOf (env : VEnv) : Stmt → List (Acct × Asset)
 def needed (env : VEnv) (stmts : List Stmt) : List (Acct × Asset) := stmts.flatMap (neededOf env)
 
 def initBal (store : Store) (nd : List (Acct × Asset)) : Bal :=
-  fun a s => if nd.contains (a, s) then some (if a = "world" then 0 else store.balance a s) else none
+  ⟨fun a s => if nd.contains (a, s) then some (if a = "world" then 0 else store.balance a s) else none⟩
 
 /-! lock sets the engine must take (C02) -/
 mutual
@@ -611,7 +613,7 @@ def run (P : Script) (req : Request) (store : Store) : Except Err Result :=
               acctMeta := F.acctMeta.map (fun m => (m.1, m.2.1, valToString m.2.2)),
               prints := F.prints,
               lockRead := lockRead P env, lockWrite := lockWrite P env,
-              finalBal := (dedupPairs nd).map (fun k => (k, (F.st.bal k.1 k.2).getD 0)) }
+              finalBal := (dedupPairs nd).map (fun k => (k, (F.st.bal.get k.1 k.2).getD 0)) }
 where
   dedupPairs (l : List (Acct × Asset)) : List (Acct × Asset) :=
     l.foldl (fun acc x => if acc.contains x then acc else acc ++ [x]) []
